@@ -143,6 +143,58 @@ func c18(c *Ctx) {
 	} else {
 		r.Fatalf("anchor Estimate missing")
 	}
+	// sign-magnitude conversion: where a function negates a signed quantity under `x < 0`, the scaling
+	// arithmetic works on the normalised value only; the raw value may be compared and negated, nothing else
+	// (the whole-seconds quotient of a negative Q32.32 value taken before the normalisation is off by the sign)
+	for _, nme := range []string{"rtp.(AbsCaptureTimeExtension).EstimatedCaptureClockOffsetDuration", "rtp.NewAbsCaptureTimeExtensionWithCaptureClockOffset"} {
+		fn := p.Func(nme)
+		if fn == nil {
+			continue
+		}
+		for _, b := range fn.Blocks {
+			for _, in := range b.Instrs {
+				neg, ok := in.(*ssa.UnOp)
+				if !ok || neg.Op != token.SUB {
+					continue
+				}
+				raw := neg.X
+				if _, isConst := raw.(*ssa.Const); isConst || raw.Referrers() == nil {
+					continue
+				}
+				// only when the negation is guarded by a sign test of the same value
+				guarded := false
+				for _, g := range core.DominatingGuards(b) {
+					if cmp, ok := g.Cond.(*ssa.BinOp); ok && (cmp.X == raw || cmp.Y == raw) && (cmp.Op == token.LSS || cmp.Op == token.GTR || cmp.Op == token.LEQ || cmp.Op == token.GEQ) {
+						guarded = true
+					}
+				}
+				if !guarded {
+					continue
+				}
+				bad := ""
+				for _, ref := range *raw.Referrers() {
+					switch u := ref.(type) {
+					case *ssa.Phi, *ssa.DebugRef:
+					case *ssa.UnOp:
+						if u.Op != token.SUB {
+							bad = p.Position(u.Pos())
+						}
+					case *ssa.BinOp:
+						switch u.Op {
+						case token.LSS, token.GTR, token.LEQ, token.GEQ, token.EQL, token.NEQ:
+						default:
+							bad = p.Position(u.Pos())
+						}
+					default:
+						bad = p.Position(ref.Pos())
+					}
+				}
+				n++
+				r.Add("STRUCT.signmag", nme, "the value negated under its sign test is otherwise only compared (scaling uses the normalised value)", p.Position(neg.Pos()), bad == "",
+					"the raw signed value is also used in arithmetic at "+bad+", before the normalisation")
+			}
+		}
+	}
 	r.Floor("C18 constant rows", n, 12)
 	// the conversions never panic (nil offset, float conversions): panic obligations of every function of the clause
 	var entries []*ssa.Function
